@@ -172,8 +172,10 @@ def body_folds(case, ctx):
         if err > tol:
             raise Violation(f"fold:inexact:{which}", f"theta={t!r}, [{l!r}, {h!r}]: {r!r} vs exact fold {float(exact)!r} ({folds} folds)")
         if signs is not None:
+            # (the number of folds is the integer part of (theta - lower) / width: within the rounding of that quotient of a whole
+            # number - eps (|theta| + |limits|) / width - either neighbouring count is a correct reading)
             frac = abs(quotient - round(quotient))
-            if frac > Fraction(1, 10**9):
+            if frac > Fraction(1, 10**9) + Fraction(16 * EPS * (abs(t) + abs(l) + abs(h)) / (h - l)):
                 want = -1.0 if folds % 2 else 1.0
                 if float(signs[i]) != want:
                     raise Violation("fold:momentum-sign", f"theta={t!r}, [{l!r}, {h!r}]: folded {folds} times, momentum factor {signs[i]!r}")
